@@ -102,6 +102,62 @@ func (w *World) CopyTo(src int, flushEvery int) {
 	res.Close()
 }
 
+// CopyToExisting copies the original store into a destination file that already
+// holds a store (a byte copy of the source file up to its last durable root
+// record).  The destination is a store file like any other: CopyTo may only
+// append to it (C09) - nothing below the end of its last root record may be
+// written or cut off.
+func (w *World) CopyToExisting(flushEvery int) {
+	label := fmt.Sprintf("CopyTo(orig,%d -> file holding the last flush)", flushEvery)
+	if w.File == nil || len(w.M.Flushed) == 0 {
+		return
+	}
+	base := w.M.Flushed[len(w.M.Flushed)-1].End
+	if base <= 0 || base > int64(len(w.File.Data)) {
+		return
+	}
+	w.begin(label, true, false)
+	w.Trans++
+	dst := NewMemFileFrom(w.File.Data[:base])
+	keep := append([]byte(nil), dst.Data...)
+	bad := ""
+	dst.OnCall = func(c *IOCall) {
+		if bad != "" {
+			return
+		}
+		if c.Op == "W" && c.Len > 0 && c.Off < base {
+			bad = fmt.Sprintf("WriteAt(%d bytes at offset %d) below the end (%d) of the destination's last root record", c.Len, c.Off, base)
+		}
+		if c.Op == "T" {
+			bad = fmt.Sprintf("Truncate(%d) of the destination", c.Off)
+		}
+	}
+	res, err := w.St.CopyTo(dst, flushEvery)
+	dst.OnCall = nil
+	if w.faulted(label, err, true, err != nil && res != nil) {
+		return
+	}
+	w.logf("%s=%s", label, errs(err))
+	if err != nil || res == nil {
+		w.Fail("copyto", "error", "%s returned (%v, %v)", label, res, err)
+		return
+	}
+	if bad != "" {
+		w.Fail("append", "copyto-destination-overwritten", "%s: %s", label, bad)
+	}
+	if int64(len(dst.Data)) < base || !bytes.Equal(dst.Data[:base], keep) {
+		w.Fail("append", "copyto-destination-modified", "%s: bytes below the end of the destination's last root record changed", label)
+	}
+	// (contents are not compared: SetCollection on an existing name keeps what the
+	// destination already had, so the result is a merge that no property specifies)
+	for _, name := range w.M.Cur.Names() {
+		if res.GetCollection(name) == nil {
+			w.Fail("copyto", "collection-missing", "%s: the result has no collection %q", label, name)
+		}
+	}
+	res.Close()
+}
+
 // checkFormatImage: the independent decoder accepts the last root of the image
 // and reconstructs exp.
 func (w *World) checkFormatImage(data []byte, exp *RState, label string) {
